@@ -466,3 +466,61 @@ func VfC04_Merged() {
 	closed, _ := hClosed(m)
 	vfAssert("C04.merged.closed", closed)
 }
+
+// VfC04_BlockAddresses: several deferred references of one kind.  A global
+// table with one to three blockaddress constants (forked), two more in global
+// initialisers, and two function definitions that each use blockaddress
+// constants of their own and of the other function's blocks as operands
+// (label names symbolic): every blockaddress constant of the module refers to
+// the function object and to the very block object that function lists; no
+// placeholder block survives (closure walk).
+//
+//vf:unwind 400
+func VfC04_BlockAddresses() {
+	a, b := hTwoLetters("a", "b")
+	n := vfLen("table", 1, 3)
+	elems := [3]string{"i8* blockaddress(@f, %" + a + ")", "i8* blockaddress(@g, %" + b + ")", "i8* blockaddress(@f, %" + b + ")"}
+	tbl := ""
+	for i := 0; i < n; i++ {
+		if i > 0 {
+			tbl += ", "
+		}
+		tbl += elems[i]
+	}
+	src := "@tbl = global [" + string(rune('0'+n)) + " x i8*] [" + tbl + "]\n" +
+		"@one = global i8* blockaddress(@g, %" + a + ")\n" +
+		"define void @f(i8** %p) {\n" + a + ":\n\tstore i8* blockaddress(@g, %" + b + "), i8** %p\n\tbr label %" + b + "\n" + b + ":\n\tstore i8* blockaddress(@f, %" + a + "), i8** %p\n\tret void\n}\n" +
+		"define void @g(i8** %p) {\n" + a + ":\n\tstore i8* blockaddress(@f, %" + b + "), i8** %p\n\tbr label %" + b + "\n" + b + ":\n\tstore i8* blockaddress(@g, %" + b + "), i8** %p\n\tret void\n}\n" +
+		"@two = global i8* blockaddress(@f, %" + a + ")\n"
+	m, err := ParseString("t.ll", src)
+	vfReach("C04.blockaddresses")
+	vfObserveStr("src", src)
+	vfAssert("C04.blockaddresses.accepted", err == nil)
+	if err != nil {
+		return
+	}
+	f, g := m.Funcs[0], m.Funcs[1]
+	isBA := func(c value.Value, fn *ir.Func, blk *ir.Block) bool {
+		ba, ok := c.(*constant.BlockAddress)
+		if !ok {
+			return false
+		}
+		return vfAnd(ba.Func == constant.Constant(fn), ba.Block == value.Value(blk))
+	}
+	arr, ok := m.Globals[0].Init.(*constant.Array)
+	vfAssert("C04.blockaddresses.table", vfAnd(ok, ok && len(arr.Elems) == n))
+	if ok && len(arr.Elems) == n {
+		want := [3][2]int{{0, 0}, {1, 1}, {0, 1}}
+		fns := [2]*ir.Func{f, g}
+		for i := 0; i < n; i++ {
+			fn := fns[want[i][0]]
+			vfAssert("C04.blockaddresses.table-entry-is-the-block", isBA(arr.Elems[i], fn, fn.Blocks[want[i][1]]))
+		}
+	}
+	vfAssert("C04.blockaddresses.globals", vfAnd(isBA(m.Globals[1].Init, g, g.Blocks[0]), isBA(m.Globals[2].Init, f, f.Blocks[0])))
+	st := func(fn *ir.Func, bi int) value.Value { return fn.Blocks[bi].Insts[0].(*ir.InstStore).Src }
+	vfAssert("C04.blockaddresses.operands-in-f", vfAnd(isBA(st(f, 0), g, g.Blocks[1]), isBA(st(f, 1), f, f.Blocks[0])))
+	vfAssert("C04.blockaddresses.operands-in-g", vfAnd(isBA(st(g, 0), f, f.Blocks[1]), isBA(st(g, 1), g, g.Blocks[1])))
+	closed, _ := hClosed(m)
+	vfAssert("C04.blockaddresses.closed", closed)
+}
